@@ -418,6 +418,11 @@ func (m *Mux) serveHTTP(w http.ResponseWriter, r *http.Request) error {
 	if isWebsocket {
 		conn, _, _, err := ws.UpgradeHTTP(r, w)
 		if err != nil {
+			if conn != nil {
+				// The handshake was refused on the connection it had taken
+				// over: nobody else closes it.
+				conn.Close()
+			}
 			m.opts.endRPC(ctx, beginTime, err)
 			return err
 		}
